@@ -68,7 +68,10 @@ def init_semantics(model) -> None:
         raise AnalysisError("Element.__init__: does not iterate over the class default values")
 
 
-def sequence_of(fn: ast.FunctionDef, who: str, receivers=("self",)) -> List[Step]:
+METHODS: Dict[str, ast.FunctionDef] = {}  # methods of Element/Container by name (filled by check()): helper methods in a chain are followed
+
+
+def sequence_of(fn: ast.FunctionDef, who: str, receivers=("self",), _depth: int = 0) -> List[Step]:
     """Ordered setter calls in a function: either one chained expression rooted at
     type(self)(...) or consecutive `recv.m(...)` statements."""
     steps: List[Step] = []
@@ -103,6 +106,10 @@ def sequence_of(fn: ast.FunctionDef, who: str, receivers=("self",)) -> List[Step
                     steps.append(Step(m, classify_arg(c, who, fn), c))
                 elif m in ("set_fixed", "set_label", "set_subcircuits"):
                     steps.append(Step(m, "", c))
+                elif m in METHODS and _depth < 2 and m not in ("get_values", "get_lower_limits", "get_upper_limits"):
+                    # a helper method of the class applied in the chain (e.g. _copy_limits_from(source)): its own setter
+                    # sequence on `self` takes the place of the call
+                    steps += sequence_of(METHODS[m], f"{who}→{m}", ("self",), _depth + 1)
     return steps
 
 
@@ -195,6 +202,10 @@ def check_transfer(ctx: Ctx, rid: str, key: str, module: str, fn: ast.FunctionDe
 def check(ctx: Ctx) -> None:
     model = get_model(ctx.repo)
     ctx.modules_consulted.update({BASE, PARSER, "pyimpspec.circuit.circuit"})
+    METHODS.clear()
+    for cq in (f"{BASE}:Element", f"{BASE}:Container"):
+        for mn, mf in model.classes[cq].methods.items():
+            METHODS.setdefault(mn, mf.node)
     ctx.rule("R14.1", "single operations in every world: no store before a refusal; success ⇒ l<u strictly, limit moved past the value clamps the value, set_values touches only the value; set_fixed/set_label touch no numeric state")
     ctx.rule("R14.2", "reset_parameters/reset_parameter reach (v0,l0,u0) from every state with l<u")
     ctx.rule("R14.3", "copy/deepcopy of Element and Container succeed and reproduce (v,l,u,fixed,label) in every world with l<=v<=u, l<u")
